@@ -167,6 +167,9 @@ func (d *Decoder) decodeValue(value reflect.Value) {
 	}
 
 	val := d.decodeValueGeneral(value)
+	if d.err != nil {
+		return
+	}
 	if val != nil {
 		value.Set(reflect.ValueOf(val).Convert(value.Type()))
 		return
@@ -212,6 +215,11 @@ func (d *Decoder) decodeValue(value reflect.Value) {
 	}
 
 	if d.err != nil {
+		return
+	}
+
+	if val == nil || !reflect.TypeOf(val).ConvertibleTo(value.Type()) {
+		d.err = fmt.Errorf("decoded value of type %T can't be stored in %v", val, value.Type())
 		return
 	}
 
@@ -324,6 +332,16 @@ func (d *Decoder) decodeRegisteredObject() Object {
 		return nil
 	}
 
+	if _, isEnum := enumCrcs[crc]; isEnum {
+		// enums are registered by value: the constructor id is the whole object
+		o, ok := reflect.ValueOf(crc).Convert(_typ).Interface().(Object)
+		if !ok {
+			d.err = fmt.Errorf("registered enum %v doesn't implement tl.Object", _typ)
+			return nil
+		}
+		return o
+	}
+
 	o := reflect.New(_typ.Elem()).Interface().(Object)
 
 	if m, ok := o.(Unmarshaler); ok {
@@ -335,12 +353,10 @@ func (d *Decoder) decodeRegisteredObject() Object {
 		return o
 	}
 
-	if _, isEnum := enumCrcs[crc]; !isEnum {
-		d.decodeObject(o, true)
-		if d.err != nil {
-			d.err = errors.Wrapf(d.err, "decode registered object %T", o)
-			return nil
-		}
+	d.decodeObject(o, true)
+	if d.err != nil {
+		d.err = errors.Wrapf(d.err, "decode registered object %T", o)
+		return nil
 	}
 
 	return o
